@@ -568,6 +568,22 @@ func writerScenario(s *Sim, params map[string]string) {
 		WriteBackoffMin: Pick(t, "cfg", 100*time.Millisecond, 10*time.Millisecond),
 		WriteBackoffMax: Pick(t, "cfg", time.Second, 200*time.Millisecond),
 	}
+	if t.Intn("neww", 4) == 0 {
+		// the pre-0.4 constructor: the Writer owns a Transport of its own, which
+		// Close also shuts down. (Its dial function resolves and dials with the
+		// net package: pointed at the simulated network afterwards.)
+		w2 := kafka.NewWriter(kafka.WriterConfig{
+			Brokers: []string{cl.Brokers[0].Addr()}, Dialer: &kafka.Dialer{ClientID: "sim-writer", Timeout: 3 * time.Second},
+			MaxAttempts: w.MaxAttempts, BatchSize: w.BatchSize, BatchBytes: int(w.BatchBytes), BatchTimeout: w.BatchTimeout,
+			ReadTimeout: w.ReadTimeout, WriteTimeout: w.WriteTimeout, RequiredAcks: int(w.RequiredAcks), Async: w.Async, Logger: w.Logger,
+			IdleConnTimeout: tr.IdleTimeout, RebalanceInterval: tr.MetadataTTL,
+		})
+		w2.Compression, w2.WriteBackoffMin, w2.WriteBackoffMax = w.Compression, w.WriteBackoffMin, w.WriteBackoffMax
+		tr2 := w2.Transport.(*kafka.Transport)
+		tr2.Dial, tr2.DialTimeout = n.Dialer("writer"), tr.DialTimeout
+		w, tr = w2, tr2
+		s.Count("writer-from-NewWriter")
+	}
 	if st.timingFaults && !st.raceClose && t.Intn("wstall", 3) == 0 { // (the second user would outlive a Close that races with the actors)
 		// Full socket buffers: for a while the broker does not read from one of
 		// the Transport's connections, writes to it block until their deadline.
@@ -680,6 +696,9 @@ func writerScenario(s *Sim, params map[string]string) {
 			seq := 0
 			for ci := 0; ci < ncalls; ci++ {
 				k := t.Range("work", 1, 5)
+				if t.Intn("work", 12) == 0 {
+					k = t.Range("work", 13, 40) // a call of many messages spread over the partitions
+				}
 				if focus == "limits" {
 					k = t.Range("work", 1, 9)
 				}
